@@ -97,7 +97,10 @@ def fresh_solo(ti):
     import subprocess, sys, json, os
     code = "import sys, json; sys.path.insert(0, %r); sys.path.insert(0, %r); import warnings; warnings.filterwarnings('ignore'); from vf.props import c06; print(json.dumps(c06.solo(%d)))" % (
         os.path.dirname(os.path.dirname(os.path.dirname(os.path.abspath(__file__)))), os.environ.get("AHRS_REPO", "/repo"), ti)
-    p = subprocess.run([sys.executable, "-c", code], stdout=subprocess.PIPE, stderr=subprocess.PIPE, text=True, env=dict(os.environ, PYTHONDONTWRITEBYTECODE="1"))
+    try:
+        p = subprocess.run([sys.executable, "-c", code], stdout=subprocess.PIPE, stderr=subprocess.PIPE, text=True, env=dict(os.environ, PYTHONDONTWRITEBYTECODE="1"), timeout=900)
+    except subprocess.TimeoutExpired:
+        return {"error": "no result within 900 s"}
     if p.returncode != 0:
         return {"error": p.stderr[-400:]}
     return json.loads(p.stdout.strip().splitlines()[-1])
